@@ -263,7 +263,14 @@ func runLife(tr *Tracer, cur *int64, scn *lifeScn) {
 				r.nextVal++
 				v := r.nextVal
 				r.mu.Unlock()
-				if op.Kind == "row" {
+				if op.Kind == "eedonly" {
+					// a server message and nothing behind it yet
+					r.mc.Feed(mkPacket(4, 0, chid, 0, randEED(rand.New(rand.NewSource(int64(v))), false).Bytes))
+				} else if op.Kind == "eedrow" {
+					// the response begins with a server message (collected by NextPackageUntil), then a package; no EOM
+					body := append(randEED(rand.New(rand.NewSource(int64(v))), false).Bytes, encRetStat(int32(v)).Bytes...)
+					r.mc.Feed(mkPacket(4, 0, chid, 0, body))
+				} else if op.Kind == "row" {
 					r.mc.Feed(mkPacket(4, 0, chid, 0, encRetStat(int32(v)).Bytes)) // no EOM: the response is not finished
 				} else {
 					r.mc.Feed(mkPacket(4, 1, chid, 0, encDone(tokDone, 0, 0, int32(v)).Bytes))
@@ -567,6 +574,13 @@ func lifeMain(args []string) error {
 			scns = append(scns, lifeScn{K: k, Answers: true, Chan: 1, Ops: []lifeOp{{Op: "connclose"}, {Op: "next"}}})
 			// a consumer callback fails in mid-response, the peer goes silent, the caller cancels
 			scns = append(scns, lifeScn{K: k + 2, Answers: true, Ops: []lifeOp{{Op: "peer", N: 1, Kind: "row"}, {Op: "until", Ctx: "c1"}, {Op: "cancel", Ctx: "c1"}}})
+			// ... also when the response began with a server message: the error still wraps the context's error
+			scns = append(scns, lifeScn{K: k + 3, Answers: true, Ops: []lifeOp{{Op: "peer", N: 1, Kind: "eedrow"}, {Op: "until", Ctx: "c1"}, {Op: "cancel", Ctx: "c1"}}})
+			scns = append(scns, lifeScn{K: k + 3, Answers: true, Chan: 1, Ops: []lifeOp{{Op: "peer", N: 1, Kind: "eedrow"}, {Op: "until"}, {Op: "cancel", Ctx: "conn"}}})
+			scns = append(scns, lifeScn{K: k + 3, Answers: true, Chan: 1, Ops: []lifeOp{{Op: "peer", N: 1, Kind: "eedrow"}, {Op: "until"}, {Op: "close"}}})
+			scns = append(scns, lifeScn{K: k + 3, Answers: true, Ops: []lifeOp{{Op: "peer", N: 1, Kind: "eedonly"}, {Op: "until", Ctx: "c1"}, {Op: "cancel", Ctx: "c1"}}})
+			scns = append(scns, lifeScn{K: k + 3, Answers: true, Chan: 1, Ops: []lifeOp{{Op: "peer", N: 1, Kind: "eedonly"}, {Op: "until"}, {Op: "cancel", Ctx: "conn"}}})
+			scns = append(scns, lifeScn{K: k + 3, Answers: true, Chan: 1, Ops: []lifeOp{{Op: "peer", N: 1, Kind: "eedonly"}, {Op: "until"}, {Op: "close"}}})
 			scns = append(scns, lifeScn{K: k + 2, Answers: true, Chan: 1, Ops: []lifeOp{{Op: "until", Ctx: "c1"}, {Op: "peer", N: 2, Kind: "row"}, {Op: "cancel", Ctx: "c1"}}})
 			scns = append(scns, lifeScn{K: k + 2, Answers: true, Ops: []lifeOp{{Op: "peer", N: 1, Kind: "row"}, {Op: "until", Ctx: "c1"}, {Op: "peer", N: 1}}})
 			scns = append(scns, lifeScn{K: k + 2, Answers: true, Ops: []lifeOp{{Op: "peer", N: 1, Kind: "row"}, {Op: "until"}, {Op: "cancel", Ctx: "conn"}}})
